@@ -34,7 +34,14 @@ def decode(x, is_unc):
     return (m - 1, a - 1, int(round(w)) - 1)
 
 
-def project(o, kind, wav, tol=1e-9):
+KPC_CM = 3.0856775814913673e21
+
+
+def to_base(unit, nu):
+    return {'mJy': 1e-26 * nu, 'Jy': 1e-23 * nu, 'erg / (cm2 s)': 1.0 + 0 * nu, 'erg / s': (1.0 + 0 * nu) / KPC_CM ** 2}[unit]
+
+
+def project(o, kind, wav, tol=1e-9, stored_unit=None, read_unit=None):
     """ranks of the wavelength axis + check that every cell sits with its own wavelength.
     Returns (ranks, problems)"""
     from astropy import units as u
@@ -48,7 +55,11 @@ def project(o, kind, wav, tol=1e-9):
     if any(abs(nu[p] - 299792458.0 / (w[p] * 1e-6)) > 1e-9 * nu[p] for p in range(len(w))):
         bad.append('frequencies are not c / wavelengths position by position')
     if kind == 'sed':
-        arrs = [('flux', o.flux.value[None, ...], False), ('error', o.error.value[None, ...], True)]
+        fac = np.ones(len(w))
+        if stored_unit is not None and read_unit != stored_unit:
+            # value in read_unit = value in stored_unit * to_base(stored) / to_base(read), with THIS position's frequency
+            fac = to_base(stored_unit, nu) / to_base(read_unit, nu)
+        arrs = [('flux', (o.flux.value / fac)[None, ...], False), ('error', (o.error.value / fac)[None, ...], True)]
     else:
         arrs = [('val', o.val.value, False)] + ([('unc', o.unc.value, True)] if o.unc is not None else [])
     for nm, arr, isu in arrs:
@@ -79,6 +90,7 @@ def replay_behaviour(col, b, rng, tmpdir, tag):
     kind = None
     path = None
     file_kind = None
+    obj_unit = funit
     mpick = 0
     for si, st in enumerate(b):
         try:
@@ -96,13 +108,17 @@ def replay_behaviour(col, b, rng, tmpdir, tag):
             elif st['op'] == 'read':
                 kind = file_kind
                 if kind == 'sed':
-                    obj = SED.read(path, unit_flux=u.Unit(funit), order=st['order'])
+                    runit = rng.choice(['mJy', 'Jy', 'erg / (cm2 s)', 'erg / s']) if rng.random() < 0.5 else funit
+                    obj = SED.read(path, unit_flux=u.Unit(runit), order=st['order'])
+                    obj_unit = runit
                 else:
                     obj = SEDCube.read(path, order=st['order'], memmap=memmap)
+                    obj_unit = funit
             elif st['op'] == 'get_sed':
                 mpick = (st['m'] - 1) % nm
                 obj = obj.get_sed('mod%02d' % mpick)
                 kind = 'sed'
+                obj_unit = funit
         except Exception as e:
             sig = 'C12:%s_%s_raised:%s' % (kind, st['op'], type(e).__name__)
             if 'parse_strict' in repr(e):
@@ -112,13 +128,15 @@ def replay_behaviour(col, b, rng, tmpdir, tag):
             return
         col.replayed += 1
         if st['op'] in ('read', 'get_sed', 'create'):
-            ranks, bad = project(obj, kind, wav)
+            ranks, bad = project(obj, kind, wav, stored_unit=funit, read_unit=(obj_unit if kind == 'sed' else funit))
             asc_spec = (st['wavs'][0] < st['wavs'][-1]) if 'wavs' in st else (st['axis'] == 'asc')
             asc_obs = ranks[0] < ranks[-1]
             mono = all((ranks[i] < ranks[i + 1]) == asc_obs for i in range(len(ranks) - 1))
             if kind == 'sed' and not bad:
                 # the SED must be the one that was put in
-                d0 = decode(obj.flux.value[0, 0], False)
+                nu0 = obj.nu.to(u.Hz).value[:1]
+                f0 = (to_base(funit, nu0) / to_base(obj_unit, nu0))[0] if obj_unit != funit else 1.0
+                d0 = decode(obj.flux.value[0, 0] / f0, False)
                 if d0 is None or d0[0] != mpick:
                     bad.append('SED holds model %r, expected %r' % (d0, mpick))
             if obj.apertures is None and aps is not None:
@@ -226,7 +244,7 @@ def replay_units(behs, tmpdir, seed):
             path = os.path.join(tmpdir, 'u_%d_%d_%d.fits' % (os.getpid(), bi, hi))
             try:
                 cur.write(path)
-                nxt = SED.read(path, unit_flux=u.Unit(UNIT_STR[h['to']]), order='nu')
+                nxt = SED.read(path, unit_flux=u.Unit(UNIT_STR[h['to']]), order=rng.choice(['nu', 'wav']))
             except Exception as e:
                 sig = 'C15:raised:%s' % type(e).__name__
                 if 'parse_strict' in repr(e):
